@@ -21,6 +21,7 @@ import (
 	"strconv"
 	"strings"
 	"sync"
+	"syscall"
 	"time"
 )
 
@@ -161,8 +162,10 @@ type Check struct {
 	Floors []string
 	// Workers overrides the number of worker processes (0 = min(16, NumCPU)).
 	Workers int
-	// CaseTimeout is the per-case hang watchdog (0 = 180 s).
+	// CaseTimeout is the per-case hang watchdog (0 = 180 s); see RunWorker for how a hang is decided.
 	CaseTimeout time.Duration
+	// CaseCPULimit: CPU time one case may consume before it is declared a runaway (0 = 10 min).
+	CaseCPULimit time.Duration
 	// Race: workers run the -race binary and race reports are collected.
 	Race bool
 	// Assumptions are copied into the evidence file.
@@ -266,21 +269,56 @@ func RunWorker(chk *Check, seed uint64, tier string, i, n, from int, outPath, jo
 			ctx := context.Background()
 			chk.Run(ctx, c, rec)
 		}()
-		select {
-		case p := <-done:
-			if p != nil {
-				ps := p.(string)
-				rec.Violate("panic/"+panicSig(ps), "panic while executing case: "+firstLine(ps), map[string]any{"stack": ps})
+		// Watchdog. A wall-clock deadline on a loaded machine must not be a verdict, so a case is
+		// declared hung only on load-independent evidence: (a) BLOCKED - when the deadline passes the
+		// worker process burns (almost) no CPU over a sampling window, i.e. the case is waiting for
+		// something that does not come; or (b) RUNAWAY - the case alone has consumed more CPU time
+		// than CaseCPULimit (normal cases need seconds). A case that is merely slow because the
+		// machine is busy keeps being waited for; the whole-run watchdog then yields INCONCLUSIVE.
+		cpuStart := processCPU()
+		cpuLimit := chk.CaseCPULimit
+		if cpuLimit == 0 {
+			cpuLimit = 10 * time.Minute
+		}
+		var outcome any
+		hung := ""
+	wait:
+		for {
+			select {
+			case outcome = <-done:
+				break wait
+			case <-time.After(timeout):
+				used := processCPU() - cpuStart
+				if used > cpuLimit {
+					hung = fmt.Sprintf("case consumed %s of CPU time without returning (limit %s): runaway", used.Round(time.Second), cpuLimit)
+					break wait
+				}
+				c0 := processCPU()
+				select {
+				case outcome = <-done:
+					break wait
+				case <-time.After(10 * time.Second):
+				}
+				if d := processCPU() - c0; d < 300*time.Millisecond {
+					hung = fmt.Sprintf("case did not return within %s and the process is idle (%s CPU in a 10 s window): blocked", timeout, d.Round(time.Millisecond))
+					break wait
+				}
+				rec.Count("watchdog_extensions_busy_machine", 1)
 			}
-		case <-time.After(timeout):
-			buf := make([]byte, 1<<20)
+		}
+		if hung != "" {
+			buf := make([]byte, 4<<20)
 			buf = buf[:runtime.Stack(buf, true)]
-			rec.Violate("hang/"+c.Kind, fmt.Sprintf("case did not return within %s (per-operation watchdog)", timeout), map[string]any{"goroutines": trimDump(string(buf))})
+			rec.Violate("hang/"+c.Kind, hung+" (per-operation watchdog)", map[string]any{"goroutines": trimDump(string(buf))})
 			res.NextIndex = k + 1
 			res.CasesRun++
 			fmt.Fprintf(jf, "HANG %d\n", k)
 			write()
 			return 4 // supervisor respawns from NextIndex
+		}
+		if outcome != nil {
+			ps := outcome.(string)
+			rec.Violate("panic/"+panicSig(ps), "panic while executing case: "+firstLine(ps), map[string]any{"stack": ps})
 		}
 		res.CasesRun++
 		fmt.Fprintf(jf, "END %d\n", k)
@@ -293,6 +331,15 @@ func RunWorker(chk *Check, seed uint64, tier string, i, n, from int, outPath, jo
 	res.NextIndex = len(cases)
 	write()
 	return 0
+}
+
+// processCPU returns the CPU time (user+system) consumed so far by this process.
+func processCPU() time.Duration {
+	var ru syscall.Rusage
+	if err := syscall.Getrusage(syscall.RUSAGE_SELF, &ru); err != nil {
+		return 0
+	}
+	return time.Duration(ru.Utime.Nano() + ru.Stime.Nano())
 }
 
 // limitCases honours VERIF_LIMIT (development aid: only the first N cases).
@@ -332,7 +379,8 @@ func trimDump(s string) string {
 	gs := strings.Split(s, "\n\n")
 	var rel, other []string
 	for _, g := range gs {
-		if strings.Contains(g, "sourcenetwork/") && !strings.Contains(g, "handleMessages") && !strings.Contains(g, "core.RunWorker") {
+		if strings.Contains(g, "sourcenetwork/") && !strings.Contains(g, "handleMessages") && !strings.Contains(g, "core.RunWorker(") &&
+			!strings.Contains(g, "handleContextDone") && !strings.Contains(g, "purgeOldVersions") && !strings.Contains(g, "handleChannel") {
 			rel = append(rel, g)
 		} else {
 			other = append(other, g)
@@ -459,7 +507,7 @@ func Supervise(chk *Check, seed uint64, tier string, self string) int {
 				cmd.Stderr = lf
 				cmd.Env = append(os.Environ(), "GOMEMLIMIT=3GiB", fmt.Sprintf("VERIF_WORKER=%d", w))
 				if chk.Race {
-					cmd.Env = append(cmd.Env, "GORACE=halt_on_error=0 log_path="+filepath.Join(dir, fmt.Sprintf("race.w%d.a%d", w, attempt)))
+					cmd.Env = append(cmd.Env, "GORACE=halt_on_error=0 exitcode=0 log_path="+filepath.Join(dir, fmt.Sprintf("race.w%d.a%d", w, attempt)))
 				}
 				err := cmd.Run()
 				timedOut := ctx.Err() != nil
